@@ -962,6 +962,13 @@ def column_types(u):
     src_m = rl.find_fn(MT, u.src(MT), rl.find_block(MT, u.src(MT), "impl TableBuilder for MysqlQueryBuilder")[0], "prepare_column_type").text
     src_p = rl.find_fn(PT, u.src(PT), rl.find_block(PT, u.src(PT), "impl TableBuilder for PostgresQueryBuilder")[0], "prepare_column_type").text
     u.spec(sized_lemma(src_m + src_p), "schema::lemma_sized_lits(GENERATED from the literals in /repo)", props=P)
+    # Display for PgInterval: the field restriction of an interval type, spelled as PostgreSQL 8.5.4 lists them
+    u.emit("impl PgInterval {\n")
+    u.fn("src/extension/postgres/interval.rs", "impl fmt::Display for PgInterval", "fmt", rename="fmt_impl", props=P, key="Display for PgInterval::fmt", vpath="PgInterval::fmt_impl",
+         rules=[make_r_sub("R-dynw", r"fn fmt\(&self, f: &mut fmt::Formatter\) -> fmt::Result", "fn fmt<W: VTextW>(&self, f: &mut W)"),
+                make_r_sub("R-fmt", r'write!\(f, "\{fields\}"\)', "vtext_lit(f, fields);")],
+         spec="ensures final(f).text() == old(f).text() + interval_fields_text(*self),")
+    u.emit("}\n")
     u.emit("pub struct MysqlTypes;\nimpl MysqlTypes {\n")
     u.fn(MT, "impl TableBuilder for MysqlQueryBuilder", "prepare_column_type", props=P, key="MysqlQueryBuilder::prepare_column_type", vpath="MysqlTypes::prepare_column_type", prefix="#[verifier::rlimit(60)]\n    ",
          rules=[r_dynw, r_w, r_bind_match,
